@@ -944,6 +944,7 @@ type batchQueue struct {
 }
 
 func (b *batchQueue) Put(batch *writeBatch) bool {
+	verifPoint("writer.batchQueue.Put")
 	b.cond.L.Lock()
 	defer b.cond.L.Unlock()
 	defer b.cond.Broadcast()
